@@ -252,6 +252,14 @@ func c07LayerB(w *W, docs []c07Doc, S, C int, buffers map[string]int, canon map[
 			}
 			continue
 		}
+		if err != nil && (strings.Contains(err.Error(), "executable file not found") || strings.Contains(tlcOut, "executable file not found")) {
+			// TLC is not installed here: layer B cannot run; layer A alone decides (reported as not exhaustive)
+			if w.Shard == 0 {
+				w.Note("layer B skipped: tlc not found on PATH")
+			}
+			w.res.Capped = true
+			return
+		}
 		if err != nil {
 			w.Fatal("layer B: %v\n%s", err, clip(tlcOut))
 		}
